@@ -31,6 +31,15 @@ def bounds_of(inst) -> list:
     return lbs
 
 
+def result_bounds_of(inst, k: int = 3) -> list:
+    """The bin bounds that every PackingResult record carries (a third place computing the area bound)."""
+    from moptipyapps.binpacking2d import packing_result as pr
+    out = []
+    for key in ("bins.lowerBound", "bins.lowerBound.geometric", "bins.lowerBound.damv")[:k]:
+        out.append(small(int(pr._DEFAULT_BOUNDS[key](inst))))
+    return out
+
+
 def guillotine(rng: random.Random, max_side: int, k: int, cuts: int):
     """k bins dissected by guillotine cuts; returns (W, H, items, witness_rows, k')."""
     W, H = rng.randint(1, max_side), rng.randint(1, max_side)
@@ -119,7 +128,7 @@ def run(prop: str, tier: str, seed: int) -> int:
                 best[key] = (st["nb"], st["rows"])
         for key, (opt, rows) in best.items():
             inst = bp.make_instance(key[0], key[1], [list(t) for t in key[2]])
-            cases.append({"id": f"opt-{len(cases)}", **bp.inst_record(inst), "lbs": bounds_of(inst),
+            cases.append({"id": f"opt-{len(cases)}", **bp.inst_record(inst), "lbs": bounds_of(inst), "rlbs": result_bounds_of(inst),
                           "wit": [{"rows": rows, "nb": opt}], "opt": opt})
         rep.notes.append(f"{n_term} terminal packings over {len(best)} instances; optimum = least bins")
     finally:
@@ -150,7 +159,7 @@ def run(prop: str, tier: str, seed: int) -> int:
             inst = bp.make_instance(W, H, items)
         except ValueError as ex:
             raise core.MachineryError(f"guillotine instance rejected: {W}x{H} {items}: {ex}")
-        rec = {"id": f"guillotine-{k}", **bp.inst_record(inst), "lbs": bounds_of(inst),
+        rec = {"id": f"guillotine-{k}", **bp.inst_record(inst), "lbs": bounds_of(inst), "rlbs": result_bounds_of(inst),
                "wit": [{"rows": rows, "nb": kk}]}
         cases.append(rec)
         key = (W, H, str(sorted(map(tuple, items))))
@@ -182,7 +191,7 @@ def run(prop: str, tier: str, seed: int) -> int:
             else:
                 rows, nb = random_layout(inst, rng, 0.05)
                 wit.append({"rows": rows, "nb": nb})
-        cases.append({"id": f"{fam}-{k}", **bp.inst_record(inst), "lbs": bounds_of(inst), "wit": wit})
+        cases.append({"id": f"{fam}-{k}", **bp.inst_record(inst), "lbs": bounds_of(inst), "rlbs": result_bounds_of(inst), "wit": wit})
         rep.family(fam, 1, 0)
     # total item areas beyond 2^53 (exact integer ceiling needed); no witness: only the area clause
     for k in range({"quick": 2, "thorough": 6}[tier]):
@@ -190,8 +199,12 @@ def run(prop: str, tier: str, seed: int) -> int:
         H = rng.randint(4_600_000, 5_200_000)
         kb = rng.randint(1, 3)
         items = [[W, 1, kb * H], [1, 1, 1]]     # area = kb bins + 1: the area bound is kb + 1
-        inst = bp.make_instance(W, H, items)
-        cases.append({"id": f"huge-area-{k}", **bp.inst_record(inst), "lbs": bounds_of(inst)[:2], "wit": []})
+        try:
+            inst = bp.make_instance(W, H, items)
+        except ValueError as ex:
+            rep.notes.append(f"huge-area instance skipped: {str(ex)[:100]}")
+            continue
+        cases.append({"id": f"huge-area-{k}", **bp.inst_record(inst), "lbs": bounds_of(inst)[:2], "rlbs": result_bounds_of(inst, 2), "wit": []})
         rep.family("area-beyond-2^53", 1, 1)
         rep.nontrivial += 1
     vs = core.validate("binpack/Trace_LB", cases, shards=14)
@@ -209,6 +222,6 @@ def run(prop: str, tier: str, seed: int) -> int:
 
 def replay(prop: str, case: dict) -> dict:
     inst = bp.make_instance(case["W"], case["H"], case["items"])
-    rec = {"id": "replay", **bp.inst_record(inst), "lbs": bounds_of(inst), "wit": case["wit"]}
+    rec = {"id": "replay", **bp.inst_record(inst), "lbs": bounds_of(inst), "rlbs": result_bounds_of(inst), "wit": case["wit"]}
     vs = core.validate("binpack/Trace_LB", [rec])
     return {"clause": vs["replay"], "case": rec}
